@@ -183,6 +183,39 @@ pub fn exec(out: &mut Out, st: &mut State, line: &str) -> (String, bool) {
                 Err(_) => ("panic".into(), false),
             }
         }
+        "diesave" => {
+            // a save that does not run to its end: a copy of the workbook gets a chart whose series live on a sheet
+            // that is removed again; the writer panics while it makes the chart part, AFTER the sheet parts (and
+            // their strings) were processed.  The workbook itself is untouched.  What the next saves on this thread
+            // write must not depend on it (C12: nothing registered by an earlier save appears).
+            let w = n(2);
+            let died = {
+                let o = st.objs[w].as_ref().unwrap();
+                let r = guard(|| {
+                    use umya_spreadsheet::structs::drawing::spreadsheet::MarkerType;
+                    use umya_spreadsheet::structs::{Chart, ChartType};
+                    let mut book = o.book.clone();
+                    book.read_sheet_collection();
+                    let name = "DiesaveData";
+                    if book.new_sheet(name).is_err() {
+                        return true;
+                    }
+                    book.get_sheet_by_name_mut(name).unwrap().get_cell_mut((1u32, 1u32)).set_value_number(1);
+                    let (mut from, mut to) = (MarkerType::default(), MarkerType::default());
+                    from.set_coordinate("C1");
+                    to.set_coordinate("H12");
+                    let mut chart = Chart::default();
+                    chart.new_chart(ChartType::LineChart, from, to, vec!["DiesaveData!$A$1:$A$1"]);
+                    book.get_sheet_mut(&0).unwrap().add_chart(chart);
+                    book.remove_sheet_by_name(name).unwrap();
+                    let mut cur = std::io::Cursor::new(Vec::new());
+                    umya_spreadsheet::writer::xlsx::write_writer(&book, &mut cur).is_ok()
+                });
+                !matches!(r, Ok(true))
+            };
+            out.count(if died { "diesave.died" } else { "diesave.completed" });
+            (format!("ok ## {}", if died { "died" } else { "completed" }), true)
+        }
         "touch" => {
             // materialise a raw sheet
             let (w, s) = (n(2), n(3));
@@ -336,7 +369,8 @@ pub fn run(out: &mut Out, tier: Tier, seed: u64, replay: Option<Vec<String>>) {
                     50..=54 => format!("c12 addsheet {} {}", w, rng.below(1000)),
                     55..=58 => format!("c12 rmsheet {} {}", w, s),
                     59..=66 => format!("c12 clone {} {}", w, rng.below(4)),
-                    67..=86 => format!("c12 save {}", w),
+                    67..=84 => format!("c12 save {}", w),
+                    85..=86 => format!("c12 diesave {}", w),
                     87..=91 => format!("c12 reload {}", w),
                     92..=96 => format!("c12 lazyreload {}", w),
                     _ => format!("c12 touch {} {}", w, s),
